@@ -36,7 +36,7 @@ def run_exit(ctx, kind, result):
 
 run = Contract(target=E + "_run", types={"self": "Engine", "Engine._runstate_started": "bool", "Register.direction": "RegisterDirection"}, raises=None, on_exit=run_exit,
                requires=["not self._runstate_started"],
-               calls={"self._apply_safe_state": ev("safe"), "hwl.write_batch": ev("hw-write"), "self.emitter.*": ev("emit"),
+               calls={"self._apply_safe_state": ev("safe"), "*.write_batch": ev("hw-write"), "self.emitter.*": ev("emit"),
                       "self._tick_timer.*": ev("timer"), "self.set_error_state": ev("error-state")},
                options={"lenient": True, "protected_prefixes": (), "opaque_subscript": True})
 
